@@ -62,7 +62,9 @@ Inductive pipe :=
 | PNumbers (n : Z)                              (* numbers(n): iterator.Generate, a counter, not a slice *)
 | PList (l : list Z)                            (* a literal list: createSliceIterable *)
 | PStage (s : stage) (p : pipe)
-| PApp (p q : pipe).                            (* list + list: iterator.Append *)
+| PApp (p q : pipe)                             (* list + list: iterator.Append *)
+| PCross (id : N) (g : fn2) (p q : pipe)        (* p.cross(q, g): iterator.Cross: for a in p { for b in q { yield g(a,b) } } *)
+| PMerge (id : N) (less : pr2) (p q : pipe).    (* p.merge(q, less): iterator.Merge (sequential abstraction, see next) *)
 
 (* local state of one stage: a counter and up to two remembered values *)
 Record sst := mk_sst { cnt : Z; lastv : option Z; lastr : option Z }.
@@ -72,7 +74,9 @@ Inductive pstate :=
 | QNum (i : Z)
 | QList (rest : list Z)
 | QStage (s : sst) (q : pstate)
-| QApp (right : bool) (q1 q2 : pstate).
+| QApp (right : bool) (q1 q2 : pstate)
+| QCross (row : option Z) (q1 q2 : pstate)      (* row: the element of the first list the inner loop runs for *)
+| QMerge (ea eb : bool) (a b : option Z) (q1 q2 : pstate).   (* side ended; element of each side waiting to be compared *)
 
 Inductive step := Done | Skip (q : pstate) | Item (v : Z) (q : pstate) | Fail (e : N).
 
@@ -88,6 +92,8 @@ Fixpoint init (p : pipe) : pstate :=
   | PList l => QList l
   | PStage _ p' => QStage sst0 (init p')
   | PApp p1 p2 => QApp false (init p1) (init p2)
+  | PCross _ _ p1 p2 => QCross None (init p1) (init p2)
+  | PMerge _ _ p1 p2 => QMerge false false None None (init p1) (init p2)
   end.
 
 Definition build (p : pipe) : eff pstate := ([], init p).
@@ -203,6 +209,66 @@ Fixpoint next (p : pipe) (q : pstate) {struct p} : eff step :=
       | (l, Skip q2') => (l, Skip (QApp true q1 q2'))
       | (l, Item v q2') => (l, Item v (QApp true q1 q2'))
       | (l, Fail e) => (l, Fail e)
+      end
+  (* iterator.Cross: the second list is iterated from its beginning once for every element of the
+     first one, element by element: column j of the second list is produced only when a row reaches
+     column j.  (for i1v := range i1 { for i2v := range i2 { o, err = crossFunc(i1v, i2v); yield(o, err) } }) *)
+  | PCross id g p1 p2, QCross None q1 q2 =>
+      match next p1 q1 with
+      | (l, Done) => (l, Done)
+      | (l, Skip q1') => (l, Skip (QCross None q1' q2))
+      | (l, Item a q1') => (l, Skip (QCross (Some a) q1' (init p2)))   (* the inner loop starts: i2 is called anew *)
+      | (l, Fail e) => (l, Fail e)
+      end
+  | PCross id g p1 p2, QCross (Some a) q1 q2 =>
+      match next p2 q2 with
+      | (l, Done) => (l, Skip (QCross None q1 q2))                     (* row finished: next element of the first list *)
+      | (l, Skip q2') => (l, Skip (QCross (Some a) q1 q2'))
+      | (l, Item b q2') =>
+          match g a b with
+          | Ok o => (l ++ [Ev id [a; b]], Item o (QCross (Some a) q1 q2'))
+          | Err e => (l ++ [Ev id [a; b]], Fail e)
+          end
+      | (l, Fail e) => (l, Fail e)
+      end
+  (* iterator.Merge as List.Merge uses it (both lists wrapped in stopWhen).  Sequential abstraction: an
+     element is fetched from a side only when that side has none waiting; the implementation reads each
+     side through a goroutine (iterator.ToChan) that is one element ahead, and reports an error of one side
+     when the elements are compared (after fetching the other side's element); the harness therefore judges
+     merge by counts with that read-ahead, not event by event.
+       if !isA { a, isA = <-aMain; if !isA { if isB { yield(b) }; copyValues(bMain, yield); return } }   (same for b)
+       lessA, err = less(a, b); if lessA { yield(a, err); isA = false } else { yield(b, err); isB = false } *)
+  | PMerge id less p1 p2, QMerge ea eb a b q1 q2 =>
+      match a, ea with
+      | None, false =>
+          match next p1 q1 with
+          | (l, Done) => (l, Skip (QMerge true eb None b q1 q2))
+          | (l, Skip q1') => (l, Skip (QMerge ea eb None b q1' q2))
+          | (l, Item x q1') => (l, Skip (QMerge ea eb (Some x) b q1' q2))
+          | (l, Fail e) => (l, Fail e)
+          end
+      | _, _ =>
+          match b, eb with
+          | None, false =>
+              match next p2 q2 with
+              | (l, Done) => (l, Skip (QMerge ea true a None q1 q2))
+              | (l, Skip q2') => (l, Skip (QMerge ea eb a None q1 q2'))
+              | (l, Item y q2') => (l, Skip (QMerge ea eb a (Some y) q1 q2'))
+              | (l, Fail e) => (l, Fail e)
+              end
+          | _, _ =>
+              match a, b with
+              | Some x, Some y =>
+                  match less x y with
+                  | Ok true => ([Ev id [x; y]], Item x (QMerge ea eb None b q1 q2))
+                  | Ok false => ([Ev id [x; y]], Item y (QMerge ea eb a None q1 q2))
+                  | Err e => ([Ev id [x; y]], Fail e)
+                  end
+              | Some x, None => ([], Item x (QMerge ea eb None None q1 q2))   (* the other side has ended *)
+              | None, Some y => ([], Item y (QMerge ea eb None None q1 q2))
+              | None, None => ([], Done)
+              end
+          end
       end
   | _, _ => ([], Fail e_state)
   end.
@@ -359,6 +425,7 @@ Fixpoint occ_pipe (id : N) (p : pipe) : nat :=
   | PNumbers _ | PList _ => 0%nat
   | PStage s p' => (occ_stage id s + occ_pipe id p')%nat
   | PApp p1 p2 => (occ_pipe id p1 + occ_pipe id p2)%nat
+  | PCross i _ p1 p2 | PMerge i _ p1 p2 => (b2n (N.eqb i id) + occ_pipe id p1 + occ_pipe id p2)%nat
   end.
 
 Definition occ_term (id : N) (t : term) : nat :=
@@ -481,6 +548,48 @@ Fixpoint zrange (start : Z) (count : nat) : list Z :=
   | S c => start :: zrange (start + 1) c
   end.
 
+(* all rows of the cross product, up to the first failure *)
+Fixpoint cross_rows (g : fn2) (la lb : list Z) : list Z * option N :=
+  match la with
+  | [] => ([], None)
+  | a :: ra =>
+      match map_until (g a) lb with
+      | (r, Some e) => (r, Some e)
+      | (r, None) => let (rs, e) := cross_rows g ra lb in (r ++ rs, e)
+      end
+  end.
+
+(* cross on partial lists: as long as the second list may go on, only (a prefix of) the first row is
+   known; once it is complete every known element of the first list gives a complete row *)
+Definition spec_cross (g : fn2) (pa pb : partial) : partial :=
+  let (la, sta) := pa in
+  let (lb, stb) := pb in
+  match la with
+  | [] => ([], sta)
+  | a :: _ =>
+      match stb with
+      | Closed => let (ys, e) := cross_rows g la lb in cut ys e sta
+      | _ => let (ys, e) := map_until (g a) lb in cut ys e stb
+      end
+  end.
+
+(* merge on partial lists: known as far as both sides have an element to compare (or a side is complete) *)
+Fixpoint spec_merge (fuel : nat) (less : pr2) (la lb : list Z) (sta stb : status) : partial :=
+  match fuel with
+  | O => ([], Open)
+  | S f =>
+      match la, lb with
+      | x :: ra, y :: rb =>
+          match less x y with
+          | Ok true => let (ys, st) := spec_merge f less ra lb sta stb in (x :: ys, st)
+          | Ok false => let (ys, st) := spec_merge f less la rb sta stb in (y :: ys, st)
+          | Err e => ([], Failed e)
+          end
+      | [], _ => match sta with Closed => (lb, stb) | Open => ([], Open) | Failed e => ([], Failed e) end
+      | _ :: _, [] => match stb with Closed => (la, sta) | Open => ([], Open) | Failed e => ([], Failed e) end
+      end
+  end.
+
 Fixpoint spec_pipe (N : nat) (p : pipe) : partial :=
   match p with
   | PNumbers n =>
@@ -493,6 +602,11 @@ Fixpoint spec_pipe (N : nat) (p : pipe) : partial :=
       | (items, Closed) => let (items2, st2) := spec_pipe N p2 in (items ++ items2, st2)
       | pl => pl
       end
+  | PCross _ g p1 p2 => spec_cross g (spec_pipe N p1) (spec_pipe N p2)
+  | PMerge _ less p1 p2 =>
+      let (la, sta) := spec_pipe N p1 in
+      let (lb, stb) := spec_pipe N p2 in
+      spec_merge (S (length la + length lb)) less la lb sta stb
   end.
 
 (* scan for the first item that decides present / indexWhere *)
@@ -576,6 +690,7 @@ Fixpoint ids_pipe (p : pipe) : list N :=
   | PNumbers _ | PList _ => []
   | PStage s p' => ids_stage s ++ ids_pipe p'
   | PApp p1 p2 => ids_pipe p1 ++ ids_pipe p2
+  | PCross i _ p1 p2 | PMerge i _ p1 p2 => i :: ids_pipe p1 ++ ids_pipe p2
   end.
 
 Definition ids_term (t : term) : list N :=
@@ -591,6 +706,15 @@ Fixpoint spec_inputs (pre : nat) (p : pipe) : list (N * nat) :=
   | PNumbers _ | PList _ => []
   | PStage s p' => map (fun i => (i, length (fst (spec_pipe pre p')))) (ids_stage s) ++ spec_inputs pre p'
   | PApp p1 p2 => spec_inputs pre p1 ++ spec_inputs pre p2
+  | PCross i _ p1 p2 =>
+      (* the second list is iterated anew for every known element of the first one *)
+      let na := length (fst (spec_pipe pre p1)) in
+      let nb := length (fst (spec_pipe pre p2)) in
+      (i, (na * nb)%nat) :: spec_inputs pre p1
+        ++ map (fun e : N * nat => (fst e, (snd e * Nat.max 1 na)%nat)) (spec_inputs pre p2)
+  | PMerge i _ p1 p2 =>
+      (i, (length (fst (spec_pipe pre p1)) + length (fst (spec_pipe pre p2)))%nat)
+        :: spec_inputs pre p1 ++ spec_inputs pre p2
   end.
 
 Definition spec_bound (pre : nat) (t : term) (p : pipe) (id : N) : nat :=
